@@ -79,9 +79,13 @@ pub fn run_scenarios(run: &mut Run, scns: &[Scenario], budget: &Budget) {
 			"complete": st.complete, "capped": st.capped_reason,
 			"levels": st.levels.iter().map(|(a, b)| json!([a, b])).collect::<Vec<_>>(),
 		}));
-		if run.samples.len() < 4 {
-			if let Some(tx) = scn.alphabet.last() {
-				run.sample(json!({"scenario": scn.name, "example_history": format!("commit{} P commit{} F E X", tx_short(&scn.alphabet[0]), tx_short(tx))}));
+		if run.samples.len() < 5 {
+			// actual explored histories: the middle state of the deepest levels
+			if let Some(h) = st.samples.last() {
+				run.sample(json!({"scenario": scn.name, "explored_history": h}));
+			}
+			if let Some(h) = st.samples.get(st.samples.len() / 2) {
+				run.sample(json!({"scenario": scn.name, "explored_history": h}));
 			}
 		}
 		total.add(&st);
